@@ -643,7 +643,9 @@ static int32 pkcs12import(psPool_t *pool, const unsigned char **buf,
         return PS_PARSE_FAIL;
     }
 
-    if (tmplen < 1 || (uint32) (end - p) < tmplen)
+    /* Both 3DES and RC2 are used in CBC mode with 8-byte blocks */
+    if (tmplen < 1 || (uint32) (end - p) < tmplen ||
+        (tmplen % DES3_BLOCKLEN) != 0)
     {
         if (decryptKey)
         {
